@@ -724,6 +724,12 @@ static int reftable_reader_refs_for_unindexed(struct reftable_reader *r,
 		reftable_free(ti);
 		return err;
 	}
+	if (err > 0) {
+		/* no ref section. */
+		reftable_free(ti);
+		iterator_set_empty(it);
+		return 0;
+	}
 
 	filter = reftable_malloc(sizeof(struct filtering_ref_iterator));
 	*filter = empty;
